@@ -108,6 +108,16 @@ def CountNotIntegral (P : Params) (ls : List Line) : Prop :=
     suf ∈ [cs!"_bucket", cs!"_count", cs!"_gcount"] ∧ s.name ∈ familyNames n t ∧
     s.value = some (.flt b) ∧ P.isInteger b = false
 
+/-- a bucket line whose `le` label is missing, is not a number, or is a NaN — in whatever spelling `float()` accepts
+(`NaN`, `nan`, `-nan`, …) -/
+def BucketBoundNaN (P : Params) (ls : List Line) : Prop :=
+  ∃ n t s lbls, InBlock ls n t [smp s] ∧ s.name = n ++ cs!"_bucket" ∧ s.name ∈ familyNames n t ∧ s.labels = some lbls ∧
+    (match dictGet lbls cs!"le" with
+     | none => True
+     | some le => match P.pyFloat le with
+       | none => True
+       | some f => P.isNaN f = true)
+
 /-- samples that may carry an exemplar: buckets of histograms and gauge histograms, `_total` of counters -/
 def exemplarEligible (t name : Str) : Prop :=
   ((t = cs!"histogram" ∨ t = cs!"gaugehistogram") ∧ endsWith cs!"_bucket" name = true)
